@@ -11,14 +11,14 @@ import random
 
 APPS = ["app", "app2", "äpp", "äpp"]
 SIDES = ["s1", "s2", "s3", "s4", "s5"]
-NAMES = ["1", "2", "3", "7", "10", "100", "007", " 7", "x", "ü"]
+NAMES = ["1", "2", "3", "7", "10", "100", "007", " 7", "x", "ü", ""]
 MOODS = [None, "happy", "lonely", "scary", "errory", "weird", ""]
 PHASES = ["pake", "version", "0", "1", "", "phäse", "p\x00q"]
 
 
 HOSTILE = ["", "\x00", "a\x00b", "ä", "a\u0308", "\U0001f600", "'", '"', "`", "\\", "%s", "?", "1; DROP TABLE messages;--",
            "' OR '1'='1", "null", "None", "0", "-1", "１２", " ", "\n", "\u202e", "x" * 10000, "\ufeff", "%", "_",
-           "\ud7ff\ue000", "{}", "[]"]
+           "\ud7ff\ue000", "{}", "[]", "4\u00b2", "\u00b2", "\u0663", "\u2167", "\u00bd", "1e3", "0x10", "+1", "1_0", " 1 "]
 
 
 class GConn(object):
@@ -37,12 +37,14 @@ class GConn(object):
 class Gen(object):
     def __init__(self, seed, napps=2, nsides=3, steps=60, p_illegal=0.08, restarts=True,
                  use_time=True, explicit_sweeps=False, cross_app_mailboxes=False, max_conns=6,
-                 names=None, p_third=0.15, body_prefix="b", long_advances=True, list_cmd=True, hostile=False):
+                 names=None, p_third=0.15, body_prefix="b", long_advances=True, list_cmd=True, hostile=False, empty_side=False):
         self.r = random.Random(seed)
         self.seed = seed
         self.apps = APPS[:napps]
         self.sides = SIDES[:nsides]
         self.names = names or NAMES
+        if empty_side:
+            self.sides = self.sides[:-1] + [""]
         self.hostile = hostile
         if hostile:
             hs = list(HOSTILE)
